@@ -472,15 +472,21 @@ func (c *Ctx) statusWriteGuard() {
 
 // guardFalseStates: the states of the success returns that skip the write (returns before `at`).
 func (c *Ctx) guardFalseStates(fi *load.FuncInfo, fn *gf.Fn, an *gf.Analysis, at ast.Node) []gf.State {
+	// the no-op exits: returns of a nil error that are reachable without passing the status write
+	// (wherever they stand in the text)
 	var out []gf.State
 	info := fi.Pkg.TypesInfo
+	if len(fi.Decl.Body.List) == 0 {
+		return nil
+	}
+	aU := fn.FromUntil(fi.Decl.Body.List[0], gf.TrueState(), at)
 	ast.Inspect(fi.Decl.Body, func(n ast.Node) bool {
 		ret, ok := n.(*ast.ReturnStmt)
-		if !ok || ret.Pos() > at.Pos() || len(ret.Results) == 0 {
+		if !ok || len(ret.Results) == 0 || contains(ret, at) {
 			return true
 		}
 		if isNilExpr(info, ret.Results[len(ret.Results)-1]) {
-			if st := an.StateBefore(ret); st.Reachable() {
+			if st := aU.StateBefore(ret); st.Reachable() {
 				out = append(out, st)
 			}
 		}
